@@ -159,6 +159,9 @@ func (e *c15Env) runPty(s *procSpec, t *ttySpec) *procObs {
 	case <-time.After(2 * time.Second):
 	}
 	o := &procObs{stderr: errBuf.String()}
+	mu.Lock()
+	o.shown = append([]byte(nil), shown...)
+	mu.Unlock()
 	if t.stdoutTTY {
 		mu.Lock()
 		o.stdout = append([]byte(nil), shown...)
